@@ -345,6 +345,9 @@ func vkCrashOps(thorough bool) []vkPOp {
 func vkCrashHistories(thorough bool) []vkCHist {
 	ops := vkCrashOps(thorough)
 	maxLen := 3
+	if thorough {
+		maxLen = 4
+	}
 	var out []vkCHist
 	var rec func(cur []vkPOp)
 	rec = func(cur []vkPOp) {
@@ -474,7 +477,7 @@ func TestVerifC18Crash(t *testing.T) {
 		return
 	}
 	hs := vkCrashHistories(c.Thorough())
-	c.Note(fmt.Sprintf("crash: %d sequential histories (all sequences of 1-3 operations over %d), process-crash prefixes + power-loss images + fault at every file operation (plain and short-write) of the last persistence", len(hs), len(vkCrashOps(c.Thorough()))))
+	c.Note(fmt.Sprintf("crash: %d sequential histories (all sequences of 1-3 (thorough 1-4) operations over %d), process-crash prefixes + power-loss images + fault at every file operation (plain and short-write) of the last persistence", len(hs), len(vkCrashOps(c.Thorough()))))
 	for i, h := range hs {
 		if !c.Mine(i) {
 			continue
